@@ -182,13 +182,15 @@ CaseOf(G, start, inp) ==
    exp |-> Outcome(inp, Parse(G, inp, <<>>, FALSE, FALSE, Fuel, start))]
 
 \* a cheap deterministic shard key
+TCode == [str |-> 1, ins |-> 2, range |-> 3, id |-> 4, peek |-> 5, seq |-> 6, alt |-> 7, opt |-> 8, rep |-> 9,
+          rep1 |-> 10, not |-> 11, and |-> 12, push |-> 13, exact |-> 14, min |-> 15, max |-> 16, minmax |-> 17,
+          tag |-> 18, pushlit |-> 19]
 RECURSIVE Hash(_)
-Hash(e) == CASE e.t \in {"str", "ins"} -> Len(e.s) + (IF e.s = <<>> THEN 0 ELSE e.s[1])
-             [] e.t = "id" -> Len(e.n)
-             [] e.t \in {"seq", "alt"} -> 3 * Hash(e.a) + 7 * Hash(e.b) + 1
-             [] e.t \in {"range", "peek"} -> 5
-             [] OTHER -> 2 * Hash(e.a) + 11
-
+Hash(e) == CASE e.t \in {"str", "ins", "pushlit"} -> (3 + 5 * Len(e.s) + (IF e.s = <<>> THEN 0 ELSE e.s[1])) % 1009
+             [] e.t = "id" -> (7 + 13 * Len(e.n)) % 1009
+             [] e.t \in {"seq", "alt"} -> (17 * Hash(e.a) + 29 * Hash(e.b) + TCode[e.t]) % 1009
+             [] e.t \in {"range", "peek"} -> 5 + TCode[e.t]
+             [] OTHER -> (31 * Hash(e.a) + 3 * TCode[e.t] + (IF "n" \in DOMAIN e THEN e.n ELSE 0)) % 1009
 Mine(x) == (Hash(x.m.e) % NShards) = Shard
 
 Init == g \in { x \in Grammars : Mine(x) }
